@@ -228,14 +228,14 @@ func (p *Program) describeFuncs(set map[*ssa.Function]bool, repoOnly bool) []fnI
 	var out []fnInfo
 	for fn := range set {
 		pos := p.fset.Position(fn.Pos())
-		inRepo := strings.HasPrefix(pos.Filename, "/repo/") && !strings.Contains(filepath.Base(pos.Filename), "zz_verif")
+		inRepo := strings.HasPrefix(pos.Filename, repoRoot) && !strings.Contains(filepath.Base(pos.Filename), "zz_verif")
 		if repoOnly && !inRepo {
 			continue
 		}
 		var sb strings.Builder
 		fn.WriteTo(&sb)
 		h := sha256.Sum256([]byte(sb.String()))
-		out = append(out, fnInfo{Name: fn.String(), Pos: fmt.Sprintf("%s:%d", strings.TrimPrefix(pos.Filename, "/repo/"), pos.Line), Hash: hex.EncodeToString(h[:8])})
+		out = append(out, fnInfo{Name: fn.String(), Pos: fmt.Sprintf("%s:%d", strings.TrimPrefix(pos.Filename, repoRoot), pos.Line), Hash: hex.EncodeToString(h[:8])})
 	}
 	sort.Slice(out, func(i, j int) bool { return out[i].Name < out[j].Name })
 	return out
